@@ -1204,6 +1204,8 @@ def search_totality(drv, rng, budget):
               ("0b_", "u8"), ("Some(Left(1))", "Option<Either<u8, u8>>"), ("0x0102", "[u8; 2]"), ("1_0", "u8"), ("0b" + "1" * 16, "u16"), ("0b" + "0" * 32, "u32"),
               ("0b" + "10" * 64, "u128"), ("0b" + "1" * 256, "u256"), ("0b" + "1" * 64, "u64")]
     mods = ["mod witness {\n    const A: u8 = 1;\n    const B: (u8, bool) = (2, false);\n}", "mod param { const X: u32 = 7; }", "mod witness {}", "mod other { const A: u8 = 1; }"]
+    jsons = ['{"A": {"value": "1", "type": "u8"}, "B": {"value": "(2, false)", "type": "(u8, bool)"}}', '{}', '{"A": {"value": "0x0102", "type": "[u8; 2]"}}',
+             '{"A": {"value": "list![1, 2]", "type": "List<u8, 4>"}}', '{"A": {"value": "Left(1)", "type": "Either<u8, Signature>"}}', '{"A": {"type": "u8"}}', '[1]']
     alphabet = list("0123456789_abxXfF(){}[]<>,;:=!&|-+*/ \n\t\r\"'") + ["é", "漢", " ", "0x", "0b", "u8", "u1", "fn", "let", "mod", "witness::", "param::", "jet::"]
 
     def mutate(t):
@@ -1222,7 +1224,15 @@ def search_totality(drv, rng, budget):
 
     n = 0
     while n < max(budget, 300):
-        kind = n % 5
+        kind = n % 6
+        if kind == 5:
+            t = rng.choice(jsons); t = t if n < 60 else mutate(t)
+            for op in (["json_witness", hx(t)], ["json_args", hx(t)]):
+                got = drv.call(*op)
+                if bad(got) or got.startswith("ser-err"):
+                    return {"call": "JSON entry point `%s`" % op[0], "input": {"text": t}, "op": op, "expected": "Ok or Err (no panic)", "observed": got[:300]}
+            n += 1
+            continue
         if kind == 0:
             t = rng.choice(progs); t = t if n < 20 else mutate(t)
             ops = [["render_err", hx(t)], ["run", hx(t), hx(""), hx("mod witness { const W: u8 = 1; }"), "1"]]
